@@ -32,7 +32,7 @@ template <typename E> bool opt_ni(const E &e, NI &out) { if (!e) return false; o
 
 struct World {
     Ctx &c; Rng &r; File f; std::string path;
-    std::vector<Cont> conts; std::map<std::string, std::vector<NI>> shadow; std::map<std::string, std::vector<std::string>> graveyard;
+    std::vector<Cont> conts; std::map<std::string, std::vector<NI>> shadow; std::map<std::string, std::vector<std::string>> graveyard, dead_names;
     long serial = 0; std::vector<std::string> focus;
     Group gC; Tag tC; MultiTag mC; DataArray aC;   // the handles returned by the create calls (first session only): members are ADDED through them, everything is READ through looked-up handles
     explicit World(Ctx &cx) : c(cx), r(cx.rng) {}
@@ -234,7 +234,7 @@ struct World {
                 std::vector<NI> cand; for (auto &x : shadow[owner]) { bool in = false; for (auto &y : sh) if (y.second == x.second) in = true; if (!in) cand.push_back(x); }
                 if (cand.empty()) return; nm = cand[r.u(cand.size())].first;
             } else {
-                nm = (k.named && !sh.empty() && r.chance(0.15)) ? sh[r.u(sh.size())].first : (k.named && !h5path(k.key).empty() && r.chance(0.07)) ? boundary_name(h5path(k.key)) : fresh_name();   // sometimes an existing name on purpose, sometimes one of a critical path length
+                nm = (k.named && !dead_names[k.key].empty() && r.chance(0.25)) ? dead_names[k.key][r.u(dead_names[k.key].size())]   /* the name of a child deleted earlier is used again: the new child is another entity, the old id stays dead */ : (k.named && !sh.empty() && r.chance(0.15)) ? sh[r.u(sh.size())].first : (k.named && !h5path(k.key).empty() && r.chance(0.07)) ? boundary_name(h5path(k.key)) : fresh_name();   // sometimes an existing name on purpose, sometimes one of a critical path length
                 std::string sib = sibling(k.key); if (!sib.empty() && r.chance(0.35) && !shadow[sib].empty()) { std::string cand = shadow[sib][r.u(shadow[sib].size())].first; if (cand != "c") nm = cand; }   // or the name of a child of the sibling container
             }
             bool dup = false; if (k.named && !k.membership) for (auto &x : sh) if (x.first == nm) dup = true;
@@ -252,7 +252,7 @@ struct World {
             c.op("delete " + k.kind + " by-" + (how == 0 ? "name" : how == 1 ? "id" : "handle") + " | '" + x.first.substr(0, 40) + "'");
             bool ok = false; try { ok = k.remove(x, how); } catch (std::exception &e) { c.check(false, "C03/" + k.kind + "/delete-exception", k.key + ": delete threw " + e.what()); return; }
             c.check(ok, "C03/" + k.kind + "/delete-returned-false/" + (how == 0 ? (util::looksLikeUUID(x.first) ? "uuid-name" : "name") : how == 1 ? "id" : "handle"), [&] { return k.key + ": delete of live child '" + x.first.substr(0, 40) + "' by " + (how == 0 ? "name" : how == 1 ? "id" : "handle") + " returned false"; });
-            if (ok) { sh.erase(sh.begin() + (long)i); if (k.named) graveyard[k.key].push_back(x.first); graveyard[k.key].push_back(x.second); if (!k.membership) forget_everywhere(x.second); }
+            if (ok) { sh.erase(sh.begin() + (long)i); if (k.named) { graveyard[k.key].push_back(x.first); dead_names[k.key].push_back(x.first); } graveyard[k.key].push_back(x.second); if (!k.membership) forget_everywhere(x.second); }
             c.count("deletes");
         } else if (k.membership && k.set_all && r.chance(0.6)) {   // replace all members by a vector: the members are then exactly the vector, in its order
             std::string owner = owner_of(k.kind);
